@@ -35,6 +35,9 @@ CLAIMED = {
  'C17': dict(design='4/C17', technique='TLA+ state machine JaqCli (main loop, shared input cursor, writer, exit status) explored exhaustively by TLC with history invariants; every terminated behaviour of the state graph replayed on the real binary at process level; option tables (MC_CliIO with the TLA+ writer JaqCodec) replayed byte for byte',
    text='TLC explores all interleavings of main-loop pulls and input/inputs pulls over two files of up to MaxItems items (values or unparsable text), all scripts of the effect vocabulary, with/without -n and -e, checking exactly-once in-order consumption, that only consumed well-formed values are written, and the exit status table; each of the ~11 000 terminated behaviours (plus stdin variants and stdout/stderr interleaving) is run on the real binary. Output option subsets and raw-input modes are enumerated by TLC with expected bytes from the TLA+ writer.',
    note='filters restricted to the model`s effect scripts; --arg family, -f, colours not modelled; process-level observation only'),
+ 'C12': dict(design='4/C12', technique='constructive TLA+ definitions of the collection built-ins (JaqSem NativeColl, JaqLib) evaluated by TLC over enumerated inputs x operations; vectors replayed on the library',
+   text='TLC enumerates 25 inputs with duplicates, ties, mixed types, empties and non-string keys x about 100 operations and key filters with 0-2 outputs; the expectation of each case is computed from definitions transcribed from the manual (stable sort, maximal runs, first of run, set-valued ties for min_by/max_by/bsearch) and replayed on the real code; documented equations are part of the operation set.',
+   note='regex-based filters excluded; same trusted base as C01'),
 }
 
 checks = []
